@@ -4,7 +4,7 @@ name=$1; checks=$2
 cd /verif
 wt=/tmp/seed/$name
 head=$(git -C /repo rev-parse HEAD)
-git -C $wt checkout -q -- . ; git -C $wt clean -fdq; git -C $wt checkout -q --detach $head; cp /repo/Cargo.lock $wt/
+git -C $wt reset -q --hard; git -C $wt clean -fdq; git -C $wt checkout -q --detach $head; cp /repo/Cargo.lock $wt/
 git -C $wt apply /verif/seeded/$name/patch.diff || { echo "APPLY FAIL $name"; exit 2; }
 det=""
 for c in ${checks//,/ }; do
